@@ -1,4 +1,5 @@
-import RV.Proofs.BinRestart
+import RV.Proofs.BinRepair
+import RV.Proofs.Cadence
 /-
   C07 — a crash during an archive write never loses completed snapshots.
 
@@ -98,6 +99,38 @@ theorem c07_stale_tail_invisible (v : Variant) (init : State) (hdr : Bytes) (fs0
       snapshot init (archI hdr fs0 ds ++ tail) ((archEntries fs0 ds).map (·.off)) k
         = snapshot init (archI hdr fs0 ds) ((archEntries fs0 ds).map (·.off)) k :=
   ⟨index_tail v hdr fs0 ds h tail, fun k hk => snapshot_tail init hdr fs0 ds h tail k hk⟩
+
+/-- **the recovery walk of the writer** (simulationarchive.c:555-580) on a complete trailer chain followed by ANY
+    residual bytes ends at the end of the last valid snapshot (and leaves a clean END template): the walk only
+    follows `offset_next` from the first trailer and stops at the trailer whose `offset_next` is 0 -/
+theorem c07_repair_walk_any_tail (hdr : Bytes) (fs0 : List Field) (ds : List (List Field)) (h : ArchOK hdr fs0 ds)
+    (tail : Bytes) (fuel : Nat) (hf : ds.length < fuel) (last : Nat) (fld : Bytes) :
+    (repairWalk (archI hdr fs0 ds ++ tail) fuel (64 + blobLen fs0) last fld).1 = (archI hdr fs0 ds).length ∧
+    (((repairWalk (archI hdr fs0 ds ++ tail) fuel (64 + blobLen fs0) last fld).2).drop 4).take 4 = [0, 0, 0, 0] :=
+  repairWalk_archI_tail hdr fs0 ds h tail fuel hf last fld
+
+/-- **append position = end of the last valid snapshot, for every tail**: whenever the corruption test fires on
+    `archive ++ tail`, NoFakeTrailer holds (so `c07_restart_append` applies) — the only way to defeat the writer is
+    to fool the 28-byte corruption test itself (the fake-trailer image) -/
+theorem c07_append_position_any_tail (hdr : Bytes) (fs0 : List Field) (ds : List (List Field)) (h : ArchOK hdr fs0 ds)
+    (tail : Bytes) (so last : Nat) (fld : Bytes)
+    (hro : recoverOf (archI hdr fs0 ds ++ tail) = some (so, last, fld, true)) :
+    Recovers (archI hdr fs0 ds ++ tail) (archI hdr fs0 ds).length :=
+  recovers_tail_of_corrupt hdr fs0 ds h tail so last fld hro
+
+/-- zero-filled tail of any length ≥ 12 behind an archive with at least one delta: the test fires, the next append
+    lands at the end of the last valid snapshot — `append (archive ++ zeros) s' = append archive s' ++ tail` -/
+theorem c07_append_zero_tail (v : Variant) (cmp : Nat → Bytes → Bytes → Bool) (hdr : Bytes) (fs0 : List Field)
+    (d : List Field) (r : List (List Field)) (h : ArchOK hdr fs0 (d :: r)) (n : Nat) (hn : 12 ≤ n)
+    (h2 t2 : Bytes) (b : List Field) (hh2 : h2.length = 64) (hb : WFs b)
+    (hL : blobLen (diffF v cmp fs0 b) < 2147483648) (hcnt : (d :: r).length + 1 < 4294967296) :
+    ∃ tail, append v cmp (archI hdr fs0 (d :: r) ++ List.replicate n 0) (h2 ++ (encFs b ++ (endBytes ++ t2)))
+      = some (archI hdr fs0 ((d :: r) ++ [diffF v cmp fs0 b]) ++ tail) :=
+  append_zero_tail v cmp hdr fs0 d r h n hn h2 t2 b hh2 hb hL hcnt
+
+/-- exposed = completed for ANY number of completed snapshots: `c07_crash_index` has no bound on the number of
+    deltas, and the reader's index arrays (1024 + k·1024 slots) always have slot `i` when blob `i` is recorded -/
+theorem c07_index_capacity (i : Nat) : i < RV.Cadence.capAt i := RV.Cadence.cap_ok i
 
 /-- prefix lemma: walking a strict prefix of an encoded blob ends in `read_error` — never in an accepted
     blob, never in an out-of-bounds read -/
